@@ -19,6 +19,9 @@ func (e *Engine) eqVal(a, b Value) *Term {
 		return Eq(x, b.(*Term))
 	case FloatV:
 		y := b.(FloatV)
+		if x.FP != nil || y.FP != nil {
+			return FEq(x.asFP(), y.asFP())
+		}
 		if x.Sym == nil && y.Sym == nil {
 			return BoolC(x.F == y.F)
 		}
@@ -264,6 +267,39 @@ func (e *Engine) binop(st *State, op token.Token, xt types.Type, a, b Value, yt 
 }
 
 func (e *Engine) floatOp(op token.Token, x, y FloatV) Value {
+	if x.FP != nil || y.FP != nil {
+		// general symbolic float64: IEEE terms, round to nearest even
+		a, b := x.asFP(), y.asFP()
+		fv := func(t *Term) Value {
+			if t.IsConst() {
+				return concFloat(t.FVal())
+			}
+			return FloatV{FP: t}
+		}
+		switch op {
+		case token.ADD:
+			return fv(FAdd(a, b))
+		case token.SUB:
+			return fv(FSub(a, b))
+		case token.MUL:
+			return fv(FMul(a, b))
+		case token.QUO:
+			return fv(FDiv(a, b))
+		case token.EQL:
+			return FEq(a, b)
+		case token.NEQ:
+			return Not(FEq(a, b))
+		case token.LSS:
+			return FLt(a, b)
+		case token.LEQ:
+			return FLe(a, b)
+		case token.GTR:
+			return FLt(b, a)
+		case token.GEQ:
+			return FLe(b, a)
+		}
+		panic(unsupported("float op " + op.String()))
+	}
 	if x.Sym == nil && y.Sym == nil {
 		switch op {
 		case token.ADD:
@@ -326,11 +362,20 @@ func (e *Engine) floatOp(op token.Token, x, y FloatV) Value {
 				return BoolC(!lt)
 			}
 		}
+		if fpMixed {
+			return e.floatOp(op, FloatV{FP: x.asFP()}, FloatV{FP: y.asFP()})
+		}
 		panic(unsupported("exact-int float combined with a non-integer float"))
 	}
 	mag := xm + ym
 	if mag >= (1 << 52) {
 		panic(unsupported("exact-int float magnitude exceeds 2^52"))
+	}
+	switch op {
+	case token.MUL, token.QUO:
+		if fpMixed {
+			return e.floatOp(op, FloatV{FP: x.asFP()}, FloatV{FP: y.asFP()})
+		}
 	}
 	switch op {
 	case token.ADD:
@@ -382,6 +427,9 @@ func (e *Engine) unop(st *State, x *ssa.UnOp, a Value) Value {
 		case *Term:
 			return BVNeg(v)
 		case FloatV:
+			if v.FP != nil {
+				return FloatV{FP: FNeg(v.FP)}
+			}
 			if v.Sym == nil {
 				return concFloat(-v.F)
 			}
@@ -430,7 +478,11 @@ func (e *Engine) convert(st *State, from, to types.Type, v Value) Value {
 					return FloatV{Sym: BV2Int(ZExt(x, 1)), Mag: float64(hi)}
 				}
 			}
-			panic(unsupported("float64 of a wide symbolic integer"))
+			// a wide symbolic integer: the conversion rounds, IEEE term
+			if fsigned {
+				return FloatV{FP: FFromSBV(x)}
+			}
+			return FloatV{FP: FFromSBV(ZExt(x, 1))}
 		}
 		if isString(ut) {
 			// string(rune)
@@ -465,13 +517,28 @@ func (e *Engine) convert(st *State, from, to types.Type, v Value) Value {
 		}
 	case FloatV:
 		if isFloat(ut) {
-			if b := ut.(*types.Basic); b.Kind() == types.Float32 && x.Sym == nil {
-				return concFloat(float64(float32(x.F)))
+			if b := ut.(*types.Basic); b.Kind() == types.Float32 {
+				if x.FP != nil {
+					// (a float32 is kept as the float64 it converts to exactly)
+					return FloatV{FP: FRound32(x.FP)}
+				}
+				if x.Sym == nil {
+					return concFloat(float64(float32(x.F)))
+				}
+				// an integer of magnitude < 2^24 is exact in float32; beyond
+				// that the conversion rounds, which the exact-int
+				// representation cannot express
+				if x.Mag >= 1<<24 {
+					if fpMixed {
+						return FloatV{FP: FRound32(x.asFP())}
+					}
+					panic(unsupported("float32 of a symbolic integer-valued float of magnitude >= 2^24"))
+				}
 			}
 			return x
 		}
 		if tw, tsigned, ok := intInfo(ut); ok {
-			if x.Sym != nil {
+			if x.Sym != nil || x.FP != nil {
 				panic(unsupported("int of symbolic float"))
 			}
 			if tsigned {
